@@ -194,7 +194,9 @@ func Impls() []Impl {
 	nop := func() {}
 	rw := func(b storage.ReadWriteBucket) (storage.ReadBucket, storage.WriteBucket, func()) { return b, b, nop }
 	return []Impl{
-		{"mem", func(string) (storage.ReadBucket, storage.WriteBucket, func()) { return rw(storagemem.NewReadWriteBucket()) }},
+		{"mem", func(string) (storage.ReadBucket, storage.WriteBucket, func()) {
+			return rw(storagemem.NewReadWriteBucket())
+		}},
 		{"os", func(s string) (storage.ReadBucket, storage.WriteBucket, func()) {
 			b, c := osBucket(s, false)
 			return b, b, c
@@ -413,7 +415,22 @@ func run(r *evid.Run) {
 	defer os.RemoveAll(scratch)
 	r.Rule("model = map over the prefix-free universe {a/x, a/y, ab, b/c/d} with contents {empty, 1 byte, 70 KiB}; BFS over all reachable model states with every operation of the alphabet (put/atomic put of every path x content, delete of every path, delete-all of 10 prefixes incl. '', '.', a file, 'a' vs 'ab', unnormalized spellings); each transition replayed on a fresh real bucket along the shortest model path, then the full observation menu (Get+Stat of 5 spellings of every path and 4 non-object paths, Walk of 10 prefixes) compared with the model")
 	r.Assume("universe is prefix-free as a whole (the disk bucket documents that deletes may leave orphan directories, so a path that is a strict prefix of another is outside the quantifier)")
+	// cheap, high-yield parts first: every model state through every derived view, then short sequences
+	derived(r, nil, scratch)
+	sequences(r, scratch)
 	ops := Alphabet(!r.Quick())
+	if r.Quick() {
+		// quick: the BFS uses the two small contents (81 states); the 70 KiB content is exercised by the
+		// derived views (all 256 states) and the sequence enumeration
+		var small []Op
+		for _, o := range ops {
+			if strings.HasPrefix(o.Kind, "put") && o.Content == 2 {
+				continue
+			}
+			small = append(small, o)
+		}
+		ops = small
+	}
 	// BFS over the model
 	type node struct {
 		state State
@@ -493,6 +510,12 @@ func run(r *evid.Run) {
 		}
 	})
 
+}
+
+// sequences is engine B: all operation sequences up to a depth from the initial state, observing after every step.
+func sequences(r *evid.Run, scratch string) {
+	ctx := context.Background()
+	impls := Impls()
 	// engine B: all sequences up to depth d from the initial state, observing after every step
 	depth := 2
 	small := smallAlphabet()
@@ -542,10 +565,7 @@ func run(r *evid.Run) {
 		}
 	})
 
-	derived(r, order2states(order), scratch)
 }
-
-func order2states[T any](order []T) []T { return order }
 
 // smallAlphabet is the reduced alphabet for plain sequence enumeration (one content per put).
 func smallAlphabet() []Op {
